@@ -98,6 +98,45 @@ def cases(tier, seed):
                    "swhere": swhere, "sval": sval,
                    "order": orders[(bi + ki) % 3], "via": vias[(bi + ki) % 4],
                    "reload": (bi + ki) % 4, "const": ki % 2 == 0}
+    # grid values that are numpy scalars of narrow types: the function gets
+    # the very same objects a direct run hands it
+    for mode, req in (("batchsize", 1), ("batchsize", 4), ("num_batches", 2)):
+        for rl in (0, 3):
+            yield {"nptypes": True, "mode": mode, "req": req, "reload": rl}
+
+
+def check_nptypes(case):
+    import numpy as np
+    import xyzpy as xyz
+    from xyzpy.gen.cropping import grow
+
+    d = core.fresh_dir("c04np")
+    f = xfn.make_fn(["a", "b"], kind="tstr", name="f04n")
+    combos = {"b": np.array([1, 2, 250], dtype=np.uint8),
+              "a": np.array([1.5, 0.1], dtype=np.float32)}
+    want = xyz.combo_runner(f, {k: v.copy() for k, v in combos.items()},
+                            verbosity=0)
+    vio = []
+    try:
+        crop = xyz.Crop(fn=f, name=NAME, parent_dir=d,
+                        **{case["mode"]: case["req"]})
+        crop.sow_combos(combos, verbosity=0)
+        for i in range(crop.num_batches, 0, -1):
+            grow(i, crop=xyz.Crop(name=NAME, parent_dir=d)
+                 if case["reload"] else crop, verbosity=0)
+        got = (xyz.Crop(name=NAME, parent_dir=d) if case["reload"]
+               else crop).reap()
+        # (sow_combos sorts the arguments by name: a, b)
+        want_sorted = tuple(tuple(want[j][i] for j in range(3))
+                            for i in range(2))
+        if not cmp.leaf_equal(got, want_sorted):
+            vio.append(("C04|nptypes|%s|wrong" % case["mode"],
+                        "float32 / uint8 grid values: reaped %r, a direct "
+                        "run gives %r" % (got, want_sorted)))
+    except Exception as e:
+        vio.append(("C04|nptypes|%s|raised:%s" % (case["mode"],
+                                                   type(e).__name__), repr(e)))
+    return {"nontrivial": True, "outcome": "nptypes", "violations": vio}
 
 
 def worker_init():
@@ -269,6 +308,8 @@ def setup_case(case):
 def check_case(case):
     import xyzpy as xyz
 
+    if case.get("nptypes"):
+        return check_nptypes(case)
     kind, combos, fn_args, cs, argnames, constants, f = setup_case(case)
     d = core.fresh_dir("c04")
     # (the crop's location may itself contain the words the crop's own
